@@ -413,6 +413,143 @@ Proof.
       rewrite !forallb_app, N1, N3. reflexivity.
 Qed.
 
+(* ---- which files a run removes ---- *)
+Lemma off_allowed_no_remove l n : forallb off_allowed l = true -> ~ In (ERemoveLocal n) l.
+Proof. intros H I. rewrite forallb_forall in H. specialize (H _ I). discriminate. Qed.
+
+Lemma create_report_removes mode asof (cfg : runcfg') l g n :
+  In (ERemoveLocal n) (snd (fst (create_report' mode asof cfg l g))) -> In n (map lf_name (g_files g)).
+Proof.
+  unfold create_report. destruct (negb _); [cbn; intros [H|[]]; discriminate|].
+  assert (M : forall pre, (forall x, In x pre -> x <> ERemoveLocal n) ->
+              In (ERemoveLocal n) (pre ++ map ERemoveLocal (map lf_name (g_files g))) -> In n (map lf_name (g_files g))).
+  { intros pre Hp H. apply in_app_or in H as [H|H]; [exfalso; exact (Hp _ H eq_refl)|].
+    apply in_map_iff in H as (x & E & I). injection E as <-. exact I. }
+  destruct (local_has l _).
+  { cbn [fst snd]. apply M. intros x [<-|[<-|[]]]; discriminate. }
+  destruct (local_has l _).
+  { cbn [fst snd]. apply M. intros x [<-|[<-|[<-|[]]]]; discriminate. }
+  cbn [fst snd]. rewrite !app_assoc. apply M. intros x H.
+  repeat (apply in_app_or in H as [H|H]);
+    try (destruct (upload_ok' _ _ _ _ _ _ _)); cbn in H;
+    repeat (destruct H as [H|H]; try (subst x; discriminate)); try contradiction.
+Qed.
+
+Lemma reports_loop_removes mode asof (cfg : runcfg') uploaded gs : forall l ready n,
+  In (ERemoveLocal n) (snd (fst (reports_loop' mode asof cfg uploaded gs l ready))) ->
+  exists g, In g gs /\ In n (map lf_name (g_files g)).
+Proof.
+  induction gs as [|g gs IH]; intros l ready n; cbn [reports_loop]; [intros []|].
+  destruct (not_needed _ _ _).
+  - specialize (IH (remove_all l (map lf_name (g_files g))) ready n).
+    destruct (reports_loop' _ _ _ _ gs _ ready) as [[r1 e1] l1]. cbn [fst snd] in *.
+    intros H. apply in_app_or in H as [H|H].
+    + apply in_map_iff in H as (x & E & I). injection E as <-. exists g. split; [left; reflexivity | exact I].
+    + destruct (IH H) as (g' & I & J). exists g'. split; [right; exact I | exact J].
+  - pose proof (create_report_removes mode asof cfg l g n) as C.
+    destruct (create_report' mode asof cfg l g) as [[nm e1] l1]. cbn [fst snd] in C.
+    specialize (IH l1 (match nm with Some x => ready ++ [x] | None => ready end)%list n).
+    destruct (reports_loop' _ _ _ _ gs l1 _) as [[r2 e2] l2]. cbn [fst snd] in *.
+    intros H. apply in_app_or in H as [H|H].
+    + exists g. split; [left; reflexivity | apply C; exact H].
+    + destruct (IH H) as (g' & I & J). exists g'. split; [right; exact I | exact J].
+Qed.
+
+Lemma upload_one_removes (cfg : runcfg') today nm d n :
+  In (ERemoveLocal n) (fst (upload_one R cfg today nm d)) -> n = nm.
+Proof.
+  unfold upload_one. destruct (future_report today nm); [intros []|].
+  destruct (d_local d) as [l|]; [|cbn; intros [H|[]]; discriminate].
+  destruct (negb (local_has l nm)); [cbn; intros [H|[]]; discriminate|].
+  destruct (Nat.ltb _ _); [cbn; intros [H|[]]; discriminate|].
+  destruct (d_upload d) as [u|]; [|cbn; intros [H|[]]; discriminate].
+  destruct (names_has u _); [cbn; intros [H|[]]; discriminate|].
+  destruct (names_has u _).
+  { cbn. intros H. repeat (destruct H as [H|H]; try discriminate H); try contradiction. injection H as <-. reflexivity. }
+  destruct (Z.eqb _ 200); [|destruct (_ && _)]; cbn [fst snd app In];
+    intros H; repeat (destruct H as [H|H]; try discriminate H); try contradiction;
+    injection H as <-; reflexivity.
+Qed.
+
+Lemma upload_all_removes (cfg : runcfg') today ready : forall d n,
+  In (ERemoveLocal n) (fst (upload_all R cfg today ready d)) -> In n ready.
+Proof.
+  induction ready as [|r rest IH]; intros d n H; cbn [upload_all] in H; [destruct H|].
+  pose proof (upload_one_removes cfg today r d n) as P.
+  destruct (upload_one R cfg today r d) as [e d1]. cbn [fst] in P.
+  specialize (IH d1 n). destruct (upload_all R cfg today rest d1) as [e2 d2]. cbn [fst] in *.
+  apply in_app_or in H as [H|H]; [left; symmetry; apply P; exact H | right; apply IH; exact H].
+Qed.
+
+Lemma has_suffix_self_app w s : has_suffix (w ++ s) s = true.
+Proof. apply has_suffix_app. exists w. reflexivity. Qed.
+
+(* a run removes only count files it collected (parsable begin and end, ended
+   before the start) and reports (names ending in .json) *)
+Theorem removes_justified mode asof (cfg : runcfg') d n :
+  In (ERemoveLocal n) (fst (run_ma' mode asof cfg d)) ->
+  exists l, d_local d = Some l /\
+    ((exists f, In f l /\ lf_name f = n /\ collectable (rc_start cfg) f = true) \/
+     has_suffix n json_suffix = true).
+Proof.
+  unfold run_ma.
+  pose proof (find_work_no_post mode asof d (rc_start cfg)) as N1.
+  pose proof (find_work_ready mode asof d (rc_start cfg)) as W1.
+  pose proof (find_work_count mode asof d (rc_start cfg)) as W2.
+  pose proof (find_work_dirs mode asof d (rc_start cfg)) as W3.
+  destruct (find_work mode asof d (rc_start cfg)) as [[w e1] d1]. cbn [fst snd] in *.
+  destruct W3 as [L3 _]. unfold reports.
+  assert (RJ : forall m, In m (w_ready w) -> has_suffix m json_suffix = true).
+  { intros m I. destruct (W1 m I) as (l0 & f & _ & _ & _ & Rr). apply ready_report_iff in Rr. tauto. }
+  destruct (beq mode m_off).
+  - cbn [upload_all fst]. intros H. exfalso.
+    apply in_app_or in H as [H|H]; [eapply off_allowed_no_remove; [exact N1 | exact H]|].
+    cbn in H. destruct H as [H|[]]. discriminate.
+  - destruct (d_local d1) as [l|] eqn:L1.
+    + pose proof (reports_loop_removes mode asof cfg (w_uploaded w) (groups_of (rc_start cfg) (w_count w)) l (w_ready w) n) as RL.
+      pose proof (reports_loop_ready mode asof cfg (w_uploaded w) (groups_of (rc_start cfg) (w_count w)) l (w_ready w)) as RR.
+      destruct (reports_loop' _ _ _ _ _ _ _) as [[r e2] l2]. cbn [fst snd] in RL. specialize (RR _ _ _ eq_refl).
+      pose proof (upload_all_removes cfg (today_of (rc_start cfg)) r {| d_local := Some l2; d_upload := d_upload d1 |} n) as U.
+      destruct (upload_all R cfg _ r _) as [e3 d3]. cbn [fst] in *.
+      intros H. exists l. split; [congruence|].
+      apply in_app_or in H as [H|H]; [exfalso; eapply off_allowed_no_remove; [exact N1 | exact H]|].
+      apply in_app_or in H as [H|H].
+      * destruct H as [H|H]; [discriminate|]. destruct (RL H) as (g & G1 & G2). left.
+        apply in_map_iff in G2 as (f & Nf & If). rewrite W2, <- L3 in G1.
+        unfold groups_of in G1. apply in_map_iff in G1 as (wk & <- & _). cbn [g_files group_of] in If.
+        apply filter_In in If as [If _]. apply filter_In in If as [If Cf]. exists f. auto.
+      * right. destruct (RR n (U H)) as [I|(g & _ & -> & _)]; [apply RJ; exact I | apply has_suffix_self_app].
+    + pose proof (upload_all_removes cfg (today_of (rc_start cfg)) (w_ready w) d1 n) as U.
+      destruct (upload_all R cfg _ (w_ready w) d1) as [e3 d3]. cbn [fst] in *.
+      intros H. exfalso. apply in_app_or in H as [H|H]; [eapply off_allowed_no_remove; [exact N1 | exact H]|].
+      destruct H as [H|H]; [discriminate|].
+      destruct (W1 n (U H)) as (l0 & f & E & _). congruence.
+Qed.
+
+Lemma in_removed_names e n : In n (removed_names e) <-> In (ERemoveLocal n) e.
+Proof.
+  unfold removed_names. rewrite in_flat_map. split.
+  - intros (x & I & H). destruct x; cbn in H; try contradiction. destruct H as [<-|[]]. exact I.
+  - intros I. exists (ERemoveLocal n). split; [exact I | left; reflexivity].
+Qed.
+
+(* the oracle on the model: a count file whose span is unknown is never removed,
+   so it never contributes to anything uploadable *)
+Theorem unknown_begin_ok_model mode asof recorded (cfg : runcfg') d (damaged : list (bytes * Z)) :
+  (forall ne, In ne damaged -> has_suffix (fst ne) json_suffix = false /\
+     forall l f, d_local d = Some l -> In f l -> lf_name f = fst ne -> lf_span f = None) ->
+  let e := fst (run_ma' mode asof cfg d) in
+  spec_unknown_begin_ok recorded damaged (removed_names e) (uploadable_weeks e) = true.
+Proof.
+  intros Hd. cbv zeta. unfold spec_unknown_begin_ok. destruct recorded; [|reflexivity]. apply forallb_forall. intros ne I.
+  destruct (Hd ne I) as [NJ NS]. apply negb_true_iff. apply andb_false_iff. left.
+  unfold names_has. destruct (existsb (beq (fst ne)) (removed_names _)) eqn:E; [|reflexivity].
+  exfalso. apply existsb_exists in E as (x & Ix & Ex). apply beq_eq in Ex. subst x.
+  apply in_removed_names in Ix. apply removes_justified in Ix as (l & L & [(f & If & Nf & Cf)|J]).
+  - specialize (NS l f L If Nf). unfold collectable in Cf. rewrite NS in Cf. rewrite andb_false_r in Cf. discriminate.
+  - congruence.
+Qed.
+
 (* ---- Open / Add / Run / rotation sequences with the mode off ---- *)
 (* every mode-file change inside the sequence writes a file that reads off *)
 Definition keeps_off (o : op R) : Prop :=
